@@ -557,6 +557,13 @@ impl VGen {
                 v.push(s);
             }
         }
+        // one list in six holds empty tags (leading, inner, trailing, or nothing else): the blob has a place for them
+        if r.chance(1, 6) {
+            for _ in 0..1 + r.below(2) {
+                let at = r.below(v.len() + 1);
+                v.insert(at, String::new());
+            }
+        }
         Tags::from(v)
     }
 
